@@ -26,6 +26,8 @@ type sField struct {
 	Name string // storage key of the field = its name in the schema text, the model and the field checker
 	Ptr  bool
 	Sym  string // symbol name when it differs from the storage key (AddSymbolWithKey); "" = same
+	Req  bool   // written with PersistContext.SetRequiredString (an empty value is a validation error); not part of the
+	// schema text: histories name the required fields on the operations that are subject to them (op prefix G)
 }
 
 func (f sField) symName() string {
@@ -233,7 +235,13 @@ func (st *gStrategy) PersistEntity(e *gEnt, ctx *boltz.PersistContext) {
 	}
 	for _, f := range st.def.Fields {
 		v := e.F[f.Name]
-		if f.Ptr {
+		if f.Req {
+			if v == nil {
+				ctx.SetRequiredString(f.Name, "")
+			} else {
+				ctx.SetRequiredString(f.Name, *v)
+			}
+		} else if f.Ptr {
 			ctx.SetStringP(f.Name, v)
 		} else if v == nil {
 			ctx.SetString(f.Name, "")
@@ -246,7 +254,14 @@ func (st *gStrategy) PersistEntity(e *gEnt, ctx *boltz.PersistContext) {
 			ctx.SetStringList(s, e.S[s])
 		}
 	}
+	if gPersistWitness != nil {
+		gPersistWitness(st.def, ctx)
+	}
 }
+
+// gPersistWitness, when set, is called at the end of PersistEntity of every level (root store, child store) with the
+// persist context that level wrote to (a property harness observes there whether the level latched an error)
+var gPersistWitness func(def *sStore, ctx *boltz.PersistContext)
 
 type gStore struct {
 	*boltz.BaseStore[*gEnt]
@@ -514,6 +529,13 @@ type hOp struct {
 	HasChk  bool
 	LinkF   string
 	Targets []string
+	// DW (DeleteWhere): DwField == "" -> filter `true`, else `<symbol of DwField> = "<DwVal>"`
+	DwField string
+	DwVal   string
+	// Guard: a create / update whose entity is subject to the rejections of PersistEntity (op prefix G, see design/C07.md):
+	// required fields of the wiring, over-long string-list elements, BadTags = the entity carries a tag value the storage refuses
+	Guard   bool
+	BadTags bool
 }
 
 type hVeto struct{ Store, Change, Id string }
@@ -577,7 +599,21 @@ func (w *wiring) opText(op *hOp) string {
 			}
 		}
 	}
+	if op.Guard && (op.Kind == "C" || op.Kind == "UP") {
+		req := w.requiredFields()
+		fmt.Fprintf(&sb, "G %s %d", b01(op.BadTags), len(req))
+		for _, r := range req {
+			fmt.Fprintf(&sb, " %s %s", r[0], r[1])
+		}
+		sb.WriteString(" ")
+	}
 	switch op.Kind {
+	case "DW":
+		if op.DwField == "" {
+			fmt.Fprintf(&sb, "DW %s T", op.Store)
+		} else {
+			fmt.Fprintf(&sb, "DW %s EQ %s %s", op.Store, op.DwField, hxs(op.DwVal))
+		}
 	case "C":
 		fmt.Fprintf(&sb, "C %s %s %s", op.Store, hxs(op.Id), b01(op.Sys))
 		fvsv()
@@ -606,6 +642,41 @@ func (w *wiring) opText(op *hOp) string {
 		fmt.Fprintf(&sb, "FAILT %s %s", op.Store, hxs(op.Id))
 	}
 	return sb.String()
+}
+
+// requiredFields lists (store, field) of every field of the wiring written with SetRequiredString
+func (w *wiring) requiredFields() [][2]string {
+	var out [][2]string
+	for _, s := range w.Stores {
+		for _, f := range s.Fields {
+			if f.Req {
+				out = append(out, [2]string{s.Name, f.Name})
+			}
+		}
+	}
+	return out
+}
+
+// dwFilter is the filter text of a DW operation (field symbol = "value", or true)
+func (w *wiring) dwFilter(op *hOp) string {
+	if op.DwField == "" {
+		return "true"
+	}
+	sym := op.DwField
+	s := w.store(op.Store)
+	for _, d := range []*sStore{s, w.store(s.Parent)} {
+		if d == nil {
+			continue
+		}
+		for _, f := range d.Fields {
+			if f.Name == op.DwField {
+				sym = f.symName()
+			}
+		}
+	}
+	v := strings.ReplaceAll(op.DwVal, `\`, `\\`)
+	v = strings.ReplaceAll(v, `"`, `\"`)
+	return sym + ` = "` + v + `"`
 }
 
 func (w *wiring) txText(t *hTx) string {
@@ -651,6 +722,9 @@ func (h *harnessDb) entityFor(op *hOp) *gEnt {
 	for k, v := range op.S {
 		e.S[k] = append([]string{}, v...)
 	}
+	if op.BadTags {
+		e.Tags = map[string]interface{}{"nested": map[string]interface{}{"x": "y"}, "ok": "v"}
+	}
 	return e
 }
 
@@ -671,6 +745,8 @@ func (h *harnessDb) execOp(ctx boltz.MutateContext, op *hOp) error {
 		return gs.Update(ctx, h.entityFor(op), chk)
 	case "D":
 		return gs.DeleteById(ctx, op.Id)
+	case "DW":
+		return gs.DeleteWhere(ctx, h.w.dwFilter(op))
 	case "AL":
 		return gs.links[op.LinkF].AddLinks(ctx.Tx(), op.Id, op.Targets...)
 	case "RL":
